@@ -8,6 +8,7 @@ import zigpy.types as zigpy_t
 import bellows.types as t
 import bellows.zigbee.application as app
 import bellows.zigbee.util as util
+import bellows.exception
 from bellows.exception import EzspError
 
 from contracts import index as _index
@@ -50,7 +51,39 @@ def _(I, args, kwargs):
     return T.bytes.fresh(I, "random_bytes")
 
 
-for _name in ("reset_network_info", "_reset", "_ensure_network_running"):
+@contract("bellows.zigbee.application.ControllerApplication.reset_network_info", props=["C14"])
+def _(c):
+    # restore sequence, first step ("restore sequence: write_network_info / reset_network_info"): whatever an earlier
+    # network -- or an earlier, failed restore -- left on the NCP is wiped before anything new is written, whether or
+    # not the NCP is on a network at that moment; only then can what is read back equal what was written
+    c.self(APP_NI)
+    c.effect_name = "app.reset_network_info"
+    c.raises("command_failed", EzspError)
+    c.raises("timeout", asyncio.TimeoutError)
+    c.raises("failed", zigpy.exceptions.RadioException)
+    c.raises("not_running", bellows.exception.ControllerError)  # propagated from _ensure_network_running (C17)
+    c.raises("cancelled", asyncio.CancelledError)
+    c.ensures(
+        "post.ncp_wiped_on_every_normal_return",
+        lambda fx: len(calls(fx, "ezsp.factory_reset")) == 1 and len(calls(fx, "ezsp.reset_custom_eui64")) == 1
+        and len(calls(fx, "app._reset")) == 1,
+    )
+    # the NCP is restarted after the wipe (a changed token store takes effect at start-up)
+    c.ensures(
+        "post.restart_follows_the_wipe",
+        lambda fx: [r[1] for r in fx if r[0] == "call" and r[1] in ("ezsp.factory_reset", "ezsp.reset_custom_eui64", "app._reset")]
+        == ["ezsp.factory_reset", "ezsp.reset_custom_eui64", "app._reset"],
+    )
+    # a network that is up is left (exactly once, after it was found running); none is left when none is formed
+    c.ensures(
+        "post.leaves_iff_a_network_is_up",
+        lambda fx: len(calls(fx, "ezsp.leaveNetwork"))
+        == len([r for r in fx if r[0] == "await" and r[1].endswith("_ensure_network_running") and r[2] == "return"]),
+    )
+    c.modifies()
+
+
+for _name in ("_reset", "_ensure_network_running"):
     @contract(f"bellows.zigbee.application.ControllerApplication.{_name}", props=["C14"])
     def _(c, _name=_name):
         c.self(APP_NI)
